@@ -28,3 +28,7 @@ add("C14", "exploration", "property-based testing over configurations and queue 
 add("C15", FE, "stateful property-based testing over tick schedules and ack faults with a transmission-log oracle",
     "Tick lengths around resend_time and the 3 s horizon, acks lost/duplicated/delayed; from the decoded packets of every flush: no unit twice within resend_time, every due unacknowledged unit present (unbounded budget), no unit after its acknowledgement was processed.",
     SIMNOTE, "DESIGN.md 4/C15")
+
+add("C06", "exploration", "stateful property-based testing/fuzzing: field-targeted hostile packets (own raw writer), mutations of captured genuine packets and raw bytes injected into a live multi-connection session; no-unwind, memory-bound and bystander oracles",
+    "Injections are aimed with knowledge of the live state (messages in reassembly, cursors, sent sequences) at either endpoint of a victim connection while a bystander connection carries checked traffic; any unwind (overflow checks on), any accounted memory outside [0,max], any disturbance of the bystander is a violation. Exploration: the domain is byte strings x session states.",
+    SIMNOTE, "DESIGN.md 4/C06")
